@@ -343,7 +343,8 @@ class World(S.WorldComponent):
     prop = "C02"
     theorems = ["flight_accounting", "timer_armed", "t3_progress", "receiveSack_never_raises", "no_crash_reachable",
                 "sack_describes_misordered", "after_transmit", "receiver_invariant", "C02_drains_partial"]
-    mix = [("reliable-heavy-loss", False, 3), ("reliable", False, 2), ("reliable-heavy-loss", True, 1), ("mixed-pr", False, 2),
+    ssn_share = 4
+    mix = [("early", False, 1), ("ssnwrap", False, 2), ("reliable-heavy-loss", False, 3), ("reliable", False, 2), ("reliable-heavy-loss", True, 1), ("mixed-pr", False, 2),
            ("reorder-frag", True, 3), ("strike", False, 3), ("expiry", False, 1)]
     quick = (33, 280)
     thorough = (260, 500)
